@@ -116,6 +116,10 @@ def cases(tier):
                 nsh = max(1, (4 ** n) // 64)
                 for sh in range(nsh):
                     yield ('pivot', n, cfg, li, (sh, nsh))
+    # the same pivots with nanosecond datetime64 index-field values (labels that a conversion to native Python objects would turn into integers)
+    for n in range(1, 4):
+        for cfg in range(len(PIVOT_CFG)):
+            yield ('pivot', n, cfg, 0, (0, 1), 'datens')
     for nl in range(1, sc['n_join'] + 1):
         for nr in range(1, sc['n_join'] + 1):
             for route in ('columns', 'index', 'two-columns', 'columns-shared-labels', 'index-depth-list'):
@@ -331,22 +335,27 @@ PIVOT_CFG = [
 
 
 def run_pivot(case, ctx):
-    _, n, cfgi, li, (sh, nsh) = case
+    _, n, cfgi, li, (sh, nsh) = case[:5]
+    keykind = case[5] if len(case) > 5 else 'int'
     name, ifs, cfs, dfs, func, fill = PIVOT_CFG[cfgi]
+    name_base = name
+    if keykind == 'datens':
+        name += '|datetime64[ns]-index-field'
+    IV = {1: 1, 2: 2} if keykind == 'int' else {1: np.datetime64('2020-01-01T00:00:00.000000001', 'ns'), 2: np.datetime64('2020-01-01T00:00:00.000000002', 'ns')}
     index = ['r%d' % i for i in range(n)]
     # i over {1,2}, c over {'x','y'} for every row -> 4^n assignments; j is a second key column derived deterministically
     for vi, assign in enumerate(itertools.product(((1, 'x'), (1, 'y'), (2, 'x'), (2, 'y')), repeat=n)):
         if vi % nsh != sh:
             continue
-        iv = [a[0] for a in assign]
+        iv = [IV[a[0]] for a in assign]
         cv = [a[1] for a in assign]
         jv = [(i * 7) % 2 + 10 for i in range(n)]
         dv = [3 + 2 * i for i in range(n)]
         ev = [1.5 * (i + 1) for i in range(n)]
-        colmap = {'i': (iv, 'int64'), 'c': (cv, '<U1'), 'j': (jv, 'int64'), 'd': (dv, 'int64'), 'e': (ev, 'float64')}
+        colmap = {'i': (iv, 'int64' if keykind == 'int' else 'datetime64[ns]'), 'c': (cv, '<U1'), 'j': (jv, 'int64'), 'd': (dv, 'int64'), 'e': (ev, 'float64')}
         names = ['i', 'j', 'c', 'd', 'e']
         f, sig = mkframe([arr(*colmap[k]) for k in names], names, index, li)
-        ctx.state(('pivot', tuple(assign), sig))
+        ctx.state(('pivot', keykind, tuple(assign), sig))
         ctx.transition()
         info = dict(config=name, assignment=assign, layout=sig)
         rows = [{k: colmap[k][0][i] for k in names} for i in range(n)]
@@ -382,7 +391,7 @@ def run_pivot(case, ctx):
                         tree = False
                     seen_outer.append(k[0])
             cls = '' if tree else '|index-field-values-first-appear-in-non-tree-order'
-            ctx.violation(f'pivot|raises|{type(e).__name__}|{name}{cls}', **info, error=repr(e))
+            ctx.violation(f'pivot|raises|{type(e).__name__}|{name_base if cls else name}{cls}', **info, error=repr(e))
             continue
         got = {}
         for (r, c), v in cells(res).items():
@@ -401,7 +410,7 @@ def run_pivot(case, ctx):
                     groups.setdefault((tuple(key_of(x) for x in a), tuple(key_of(x) for x in b)), []).append(r[dfs[0]])
                 if all(len(groups.get(c, ())) == 1 and eqv(got[c], groups[c][0]) for c in bad):
                     cls = '|custom-function-not-applied-to-single-row-groups'
-            ctx.violation(f'pivot|cell|{name}{cls}', **info, cell=k, got=norm(got[k]), expected=norm(exp[k]))
+            ctx.violation(f'pivot|cell|{name_base if cls else name}{cls}', **info, cell=k, got=norm(got[k]), expected=norm(exp[k]))
         if len(set(labels_of(res.index))) != len(res.index):
             ctx.violation(f'pivot|duplicate-rows|{name}', **info)
     ctx.outcome('pivot:' + name)
